@@ -11,6 +11,9 @@ CONSTANTS MaxLen, WithBad, WithDup, GenDepth, Sim, Mixed, Burst,
           WithSplit, \* rows may have a node-to-node address (peer) that differs from the connect address
           SchemaPlan,\* enumerated histories: refresh; keyspace metadata (un)available; then anything
                      \* (in simulation: "keyspace metadata (un)available" is one more kind of step)
+          ControlPlan,\* enumerated histories: refresh; control node lost; it answers again; a refresh BEFORE the
+                     \* session has reconnected (it has to return); the reconnection
+                     \* (in simulation: "answers again" / "reconnects" are two more kinds of step)
           Overlap,   \* enumerated histories: a set-up refresh, then two steps of which the second happens
                      \* while the first is still in progress (see OverlapSteps)
           LateEvents,\* enumerated histories end with one status event for any address (also addresses
@@ -121,6 +124,8 @@ MixedSteps ==
   \/ Burst > 0 /\ \E o \in Pick(0 .. 4) : \E l \in (IF Sim THEN PickList ELSE {truth}) :
         Events(l, BurstAt(o)) /\ Rec("burst", l, "none", BurstAt(o), "")
   \/ SchemaPlan /\ Sim /\ SchemaSteps
+  \/ ControlPlan /\ Sim /\ Heal(truth) /\ Rec("heal", truth, "none", <<>>, C0addr)
+  \/ ControlPlan /\ Sim /\ \E l \in PickList : Reconnect(l) /\ Rec("reconnect", l, "none", <<>>, "")
   \/ \E a \in Pick(A0) : NodeFail(truth, a) /\ Rec("nodefail", truth, "none", <<>>, a)
   \/ \E a \in Pick(Addrs) : NodeRecover(truth, a) /\ Rec("noderecover", truth, "none", <<>>, a)
   \/ \E l \in (IF Sim THEN PickList ELSE {truth, Other}) : NodeRecover(l, C0addr) /\ Rec("noderecover", l, "none", <<>>, C0addr)
@@ -151,7 +156,13 @@ LateSteps == \E b \in {<<Ev(k, a)>> : k \in {"UP", "DOWN"}, a \in EvA} : Events(
 
 Next ==
   /\ Len(hist) < GenDepth
-  /\ IF Overlap /\ ~Sim THEN OverlapSteps
+  /\ IF ControlPlan /\ ~Sim THEN
+       CASE Len(hist) = 0 -> \E l \in CanonLists : Refresh(l, "none") /\ Rec("refresh", l, "none", <<>>, "")
+         [] Len(hist) = 1 -> NodeFail(truth, C0addr) /\ Rec("nodefail", truth, "none", <<>>, C0addr)
+         [] Len(hist) = 2 -> Heal(truth) /\ Rec("heal", truth, "none", <<>>, C0addr)
+         [] Len(hist) = 3 -> \E l \in Lists : Refresh(l, "none") /\ Rec("refresh", l, "none", <<>>, "")
+         [] OTHER -> Reconnect(truth) /\ Rec("reconnect", truth, "none", <<>>, "")
+     ELSE IF Overlap /\ ~Sim THEN OverlapSteps
      ELSE IF LateEvents /\ ~Sim /\ Len(hist) = GenDepth - 1 THEN LateSteps
      ELSE IF SchemaPlan /\ ~Sim /\ Len(hist) = 0 THEN \E l \in {x \in CanonLists : Len(x) = MaxLen} : Refresh(l, "none") /\ Rec("refresh", l, "none", <<>>, "")
      ELSE IF SchemaPlan /\ ~Sim /\ Len(hist) = 1 THEN SchemaSteps
